@@ -126,7 +126,8 @@ type Exec struct {
 	ifaceClauses []*Clause // interface-contract ensures checked against this implementation
 	ifaceRecv    string
 	deferred     []*deferred
-	inDefer      bool // executing deferred calls at the function's exit
+	inDefer      bool           // executing deferred calls at the function's exit
+	recoverLits  []*ast.FuncLit // deferred recover idioms of a library function: a panic below becomes a return through their body
 	// identifiers of loop contracts that were renamed in the code, recovered by aligning a contract loop's header with the
 	// header of the loop it was bound to by position (for _, e := range v  ~  for _, element := range elementIds)
 	loopRename    map[string]string
@@ -181,6 +182,12 @@ func (ex *Exec) assert(name, kind string, tags []string, goal Term, text string,
 
 func (ex *Exec) safe(kind string, goal Term, n ast.Node, text string) {
 	if !ex.safetyOn {
+		if len(ex.recoverLits) > 0 {
+			// the function recovers panics: an operation that would panic leaves the normal path (the recovered-panic path
+			// covers it); assuming its condition globally would exclude those inputs from the recovered path as well
+			ex.pcAnd(ex.st, goal)
+			return
+		}
 		ex.fact(goal)
 		return
 	}
@@ -189,6 +196,12 @@ func (ex *Exec) safe(kind string, goal Term, n ast.Node, text string) {
 	tags := []string{"C17"}
 	if kind == "send-closed" || kind == "close-closed" {
 		tags = append(tags, "C11")
+	}
+	if len(ex.recoverLits) > 0 && !ex.st.dead() {
+		// asserted, then assumed on the normal path only (see above)
+		ex.obls = append(ex.obls, &Obligation{Name: name, Kind: "safe", Tags: tags, Goal: goal, PC: ex.st.pc, NFacts: len(ex.facts), Text: text, Pos: ex.P.pos(n), Func: ex.F.Name, Expect: "unsat"})
+		ex.pcAnd(ex.st, goal)
+		return
 	}
 	ex.assert(name, "safe", tags, goal, text, ex.P.pos(n))
 }
@@ -240,9 +253,15 @@ func (ex *Exec) merge(a, b *State) *State {
 	}
 	// a heap / global that one side never touched still has its entry value there
 	for k, x := range a.heaps {
+		if _, known := ex.U.heaps[k]; !known {
+			continue // not a heap of this universe (an opaque pointer target): nothing to merge
+		}
 		r.heaps[k] = mergeVal(k, x, ex.heap(b, k))
 	}
 	for k, y := range b.heaps {
+		if _, known := ex.U.heaps[k]; !known {
+			continue
+		}
 		if _, ok := a.heaps[k]; !ok {
 			r.heaps[k] = mergeVal(k, ex.heap(a, k), y)
 		}
